@@ -464,6 +464,16 @@ Proof.
   apply IH. apply step_inv. exact HI.
 Qed.
 
+Lemma cfg_K_range c K : cfg_K c = Some K -> 0 <= K.
+Proof.
+  unfold cfg_K. destruct c as [|k [|s [|]]]; try discriminate.
+  - destruct ((1 <=? k) && (k <=? 64)) eqn:E2; [|discriminate]. intros [= <-].
+    apply andb_true_iff in E2. destruct E2 as [E2 _]. apply Z.leb_le in E2. lia.
+  - destruct ((1 <=? k) && (k <=? 64) && _) eqn:E2; [|discriminate]. intros [= <-].
+    apply andb_true_iff in E2. destruct E2 as [E2 _]. apply andb_true_iff in E2. destruct E2 as [E2 _].
+    apply Z.leb_le in E2. lia.
+Qed.
+
 Definition cfg_wf (c : word) : bool := match cfg_K c with Some _ => true | None => false end.
 
 Lemma model_trace_holds_partial c ops : cfg_wf c = true ->
@@ -477,9 +487,7 @@ Proof.
   rewrite forallb_app. rewrite !G; [reflexivity | |];
   apply covered_from_true.
   all: try apply Inv_init.
-  all: unfold cfg_K in E; destruct c as [|k [|]]; try discriminate;
-    destruct ((1 <=? k) && (k <=? 64)) eqn:E2; [|discriminate]; injection E as <-;
-    apply andb_true_iff in E2; destruct E2 as [E2 _]; apply Z.leb_le in E2; lia.
+  all: eapply cfg_K_range; eauto.
 Qed.
 
 (* statements over all op lists used by props/C40.v *)
@@ -1032,29 +1040,210 @@ Proof.
     apply Z.ltb_lt in H3. rewrite H3. reflexivity.
 Qed.
 
+(* ---------- the number of ejections in one interval stays within the cap ---------- *)
+
+Lemma room_mono f : forall k n mx, room f k n mx <= room (S f) k n mx.
+Proof.
+  induction f as [|f IH]; intros k n mx; cbn [room].
+  - destruct (share_ge k n mx); lia.
+  - destruct (share_ge k n mx); [lia|]. specialize (IH (k + 1) n mx). cbn [room] in IH. lia.
+Qed.
+Lemma room_nonneg f : forall k n mx, 0 <= room f k n mx.
+Proof. induction f as [|f IH]; intros; cbn [room]; [lia|]. destruct (share_ge k n mx); [lia|]. specialize (IH (k+1) n mx). lia. Qed.
+Lemma room_mono_add f f' k n mx : room f' k n mx <= room (f + f') k n mx.
+Proof.
+  induction f as [|f IH]; [cbn; lia|]. pose proof (room_mono (f + f') k n mx). cbn [Nat.add]. lia.
+Qed.
+Lemma room_add n mx : forall f k j f', 0 <= j <= room f k n mx ->
+  j + room f' (k + j) n mx <= room (f + f') k n mx.
+Proof.
+  induction f as [|f IH]; intros k j f' Hj.
+  - cbn [room] in Hj. assert (j = 0) by lia. subst. rewrite Z.add_0_r. cbn. lia.
+  - destruct (Z.eq_dec j 0) as [-> | Hj0].
+    { rewrite Z.add_0_r. pose proof (room_mono_add (S f) f' k n mx). lia. }
+    cbn [room Nat.add] in *. destruct (share_ge k n mx); [lia|].
+    specialize (IH (k + 1) (j - 1) f'). replace (k + 1 + (j - 1)) with (k + j) in IH by lia. lia.
+Qed.
+
+Lemma count_at_cons t p l : count_at t (p :: l) =
+  match ej (snd p) with Some x => if x =? t then count_at t l + 1 else count_at t l | None => count_at t l end.
+Proof. reflexivity. Qed.
+
+(* one pass: the counter grows by the number of ejections, which the cap admits *)
+Lemma pass_count crit enf n mx t : forall l k gd k' gd' l',
+  pass crit enf n mx t k gd l = (k', gd', l') ->
+  k <= k' /\ k' - k <= room (length l) k n mx /\ count_at t l' <= count_at t l + (k' - k).
+Proof.
+  induction l as [|[id e] r IH]; cbn [pass]; intros k gd k' gd' l' H.
+  - injection H as <- <- <-. cbn. lia.
+  - destruct (crit e && negb (share_ge k n mx) && (100 <=? enf)) eqn:C.
+    + destruct (pass crit enf n mx t (k + 1) (if is_ej e then gd + 1 else gd) r) as [[k1 g1] r1] eqn:E.
+      cbn in H; injection H as <- <- <-. destruct (IH _ _ _ _ _ E) as [A [B D]].
+      apply andb_true_iff in C. destruct C as [C _]. apply andb_true_iff in C. destruct C as [_ C2].
+      apply negb_true_iff in C2. cbn [length room]. rewrite C2.
+      rewrite !count_at_cons. cbn [snd eject_ep ej]. rewrite Z.eqb_refl.
+      destruct (ej e) as [x|]; [destruct (x =? t)|]; lia.
+    + destruct (pass crit enf n mx t k gd r) as [[k1 g1] r1] eqn:E.
+      cbn in H; injection H as <- <- <-. destruct (IH _ _ _ _ _ E) as [A [B D]].
+      pose proof (room_mono (length r) k n mx). cbn [length].
+      rewrite !count_at_cons. cbn [snd]. destruct (ej e) as [x|]; [destruct (x =? t)|]; lia.
+Qed.
+
+Lemma sweep_count c t : forall l u l', sweep c t l = (u, l') -> count_at t l' <= count_at t l.
+Proof.
+  induction l as [|[id e] r IH]; cbn [sweep]; intros u l' H.
+  - injection H as <- <-. lia.
+  - destruct (sweep c t r) as [u1 r1] eqn:E. specialize (IH _ _ eq_refl).
+    destruct (ej e) as [t0|] eqn:Ee.
+    + destruct (t0 + eject_span c (mult e) <? t); injection H as <- <-; rewrite !count_at_cons; cbn [snd];
+        cbn [uneject_ep ej]; rewrite ?Ee; destruct (t0 =? t); lia.
+    + destruct (0 <? mult e); injection H as <- <-; rewrite !count_at_cons; cbn [snd ej]; rewrite ?Ee; lia.
+Qed.
+
+Lemma count_at_zero t l : (forall id e x, In (id, e) l -> ej e = Some x -> x < t) -> count_at t l = 0.
+Proof.
+  induction l as [|[i e] r IH]; intros H; [reflexivity|]. rewrite count_at_cons. cbn [snd].
+  rewrite IH by (intros; eapply H; [right|]; eauto).
+  destruct (ej e) as [x|] eqn:E; [|reflexivity].
+  specialize (H i e x (or_introl eq_refl) E). destruct (Z.eqb_spec x t); [lia | reflexivity].
+Qed.
+
+Lemma fire_count c sm : ej_before sm ->
+  count_at (now sm) (eps (fire c sm)) <=
+  room (2 * length (eps sm)) (numej sm) (len (eps sm)) (maxpct c).
+Proof.
+  intros Hlt. unfold fire. fold (swapped sm). set (l0 := swapped sm). set (t := now sm).
+  assert (Hlen : length l0 = length (eps sm)) by (unfold l0, swapped; apply map_length).
+  assert (Hn : len l0 = len (eps sm)) by (unfold len; rewrite Hlen; reflexivity).
+  rewrite Hn. set (n := len (eps sm)). set (mx := maxpct c).
+  assert (H0 : count_at t l0 = 0).
+  { apply count_at_zero. intros id e x Hin Hx. unfold l0, swapped in Hin. apply in_map_iff in Hin.
+    destruct Hin as [[i e0] [He Hin]]. cbn in He. injection He as <- <-. cbn in Hx. eapply Hlt; eauto. }
+  set (r1 := if sr_on c then
+      let L := considered (sr_vol c) l0 in
+      if len L <? sr_min c then (numej sm, gD sm, l0)
+      else pass (sr_crit c L) (sr_enf c) n mx t (numej sm) (gD sm) l0
+    else (numej sm, gD sm, l0)).
+  assert (H1 : let '(k1, g1, l1) := r1 in
+     numej sm <= k1 /\ k1 - numej sm <= room (length l0) (numej sm) n mx /\
+     count_at t l1 <= count_at t l0 + (k1 - numej sm) /\ length l1 = length l0).
+  { assert (Triv : numej sm <= numej sm /\ numej sm - numej sm <= room (length l0) (numej sm) n mx /\
+                   count_at t l0 <= count_at t l0 + (numej sm - numej sm) /\ length l0 = length l0).
+    { pose proof (room_nonneg (length l0) (numej sm) n mx). lia. }
+    unfold r1. destruct (sr_on c); [|exact Triv]. cbv zeta.
+    destruct (len (considered (sr_vol c) l0) <? sr_min c); [exact Triv|].
+    destruct (pass _ _ _ _ _ _ _ l0) as [[k1 g1] l1] eqn:E.
+    destruct (pass_count _ _ _ _ _ _ _ _ _ _ _ E) as [A [B C]].
+    repeat split; auto. symmetry. eapply F2_length. eapply pass_spec; eauto. }
+  destruct r1 as [[k1 g1] l1]. destruct H1 as [A1 [B1 [C1 L1]]].
+  set (r2 := if fp_on c then
+      let L := considered (fp_vol c) l1 in
+      if len L <? fp_min c then (k1, g1, l1)
+      else pass (fp_crit c) (fp_enf c) n mx t k1 g1 l1
+    else (k1, g1, l1)).
+  assert (H2 : let '(k2, g2, l2) := r2 in
+     k1 <= k2 /\ k2 - k1 <= room (length l1) k1 n mx /\ count_at t l2 <= count_at t l1 + (k2 - k1)).
+  { assert (Triv : k1 <= k1 /\ k1 - k1 <= room (length l1) k1 n mx /\ count_at t l1 <= count_at t l1 + (k1 - k1)).
+    { pose proof (room_nonneg (length l1) k1 n mx). lia. }
+    unfold r2. destruct (fp_on c); [|exact Triv]. cbv zeta.
+    destruct (len (considered (fp_vol c) l1) <? fp_min c); [exact Triv|].
+    destruct (pass _ _ _ _ _ _ _ l1) as [[k2 g2] l2] eqn:E.
+    exact (pass_count _ _ _ _ _ _ _ _ _ _ _ E). }
+  destruct r2 as [[k2 g2] l2]. destruct H2 as [A2 [B2 C2]].
+  destruct (sweep c t l2) as [u l3] eqn:E3. pose proof (sweep_count _ _ _ _ _ E3) as C3.
+  cbn [eps].
+  pose proof (room_add n mx (length l0) (numej sm) (k1 - numej sm) (length l1)) as RA.
+  replace (numej sm + (k1 - numej sm)) with k1 in RA by lia.
+  rewrite L1, Hlen in *.
+  replace (2 * length (eps sm))%nat with (length (eps sm) + length (eps sm))%nat by lia.
+  lia.
+Qed.
+
+(* the observation's count of records with ejection time t is at most the state's *)
+Lemma filter_count_le (t : Z) (ns : list Z) : NoDup ns -> forall l,
+  Z.of_nat (length (filter (fun id => match find id l with
+                                       | Some e => match ej e with Some x => x =? t | None => false end
+                                       | None => false end) ns)) <= count_at t l.
+Proof.
+  intros Hnd. induction l as [|[i e] r IH].
+  - cbn. clear Hnd. induction ns; cbn; [lia | exact IHns].
+  - rewrite count_at_cons. cbn [snd].
+    set (g := fun (l : list (Z * ep)) id => match find id l with
+                | Some e => match ej e with Some x => x =? t | None => false end | None => false end).
+    fold (g r) in IH. fold (g ((i, e) :: r)).
+    assert (G : Z.of_nat (length (filter (g ((i, e) :: r)) ns)) <=
+                Z.of_nat (length (filter (g r) ns)) + (if g ((i, e) :: r) i then 1 else 0)).
+    { clear IH. induction ns as [|a ns IHn]; [cbn; destruct (g _ i); lia|].
+      inversion Hnd; subst. specialize (IHn H2). cbn [filter].
+      destruct (Z.eq_dec a i) as [-> | Hne].
+      - assert (Same : filter (g ((i, e) :: r)) ns = filter (g r) ns).
+        { apply filter_ext_in. intros b Hb. unfold g. cbn [find].
+          destruct (Z.eqb_spec i b); [subst; contradiction | reflexivity]. }
+        rewrite Same. destruct (g ((i, e) :: r) i); destruct (g r i); cbn [length]; lia.
+      - assert (Ea : g ((i, e) :: r) a = g r a).
+        { unfold g. cbn [find]. destruct (Z.eqb_spec i a); [congruence | reflexivity]. }
+        rewrite Ea. destruct (g r a); cbn [length]; lia. }
+    assert (Gi : (if g ((i, e) :: r) i then 1 else 0) =
+                 match ej e with Some x => if x =? t then 1 else 0 | None => 0 end).
+    { unfold g. cbn [find]. rewrite Z.eqb_refl. destruct (ej e); reflexivity. }
+    rewrite Gi in G. destruct (ej e) as [x|]; [destruct (x =? t)|]; lia.
+Qed.
+
+Lemma names_NoDup K : NoDup (names K).
+Proof.
+  unfold names. generalize (seq_NoDup (Z.to_nat K) 0). generalize (seq 0 (Z.to_nat K)).
+  induction l as [|a l IH]; cbn; intros H; constructor; inversion H; subst; auto.
+  intros Hin. apply in_map_iff in Hin. destruct Hin as [b [Hb Hin]].
+  apply Nat2Z.inj in Hb. subst. contradiction.
+Qed.
+
+Lemma o_count_now_le K st t : 0 <= K -> 0 <= t ->
+  o_count_now K (obs_of K st) t <= count_at t (eps st).
+Proof.
+  intros HK Ht. unfold o_count_now.
+  rewrite (filter_ext_in _ (fun id => match find id (eps st) with
+             | Some e => match ej e with Some x => x =? t | None => false end | None => false end)).
+  - apply filter_count_le. apply names_NoDup.
+  - intros id Hid. apply names_In in Hid. unfold ejected_now.
+    rewrite o_present_obs, o_ejat_obs by lia. destruct (find id (eps st)) as [e|]; [|reflexivity].
+    cbn. destruct (ej e); [reflexivity|]. apply Z.eqb_neq. lia.
+Qed.
+
+Lemma cl11_true K st op : 0 <= K -> TInv st ->
+  cl11 K (fired K st op) (obs_of K (step K st op)) = true.
+Proof.
+  intros HK HT. pose proof (step_tinv K st op HT) as HT'. pose proof (ti_now _ HT') as Hn'.
+  unfold cl11. change (nth 1 (obs_of K (step K st op)) 0) with (now (step K st op)).
+  destruct (fired K st op) as [[c sm]|] eqn:Ef; [|reflexivity].
+  destruct (fired_pre K st op c sm HT Ef) as [Es [Hlt _]].
+  apply Z.leb_le. pose proof (o_count_now_le K (step K st op) _ HK Hn') as A.
+  rewrite Es in A |- *. rewrite fire_now in A |- *. pose proof (fire_count c sm Hlt). lia.
+Qed.
+
 Lemma all_clauses_true K st op i : 0 <= K -> Inv st -> TInv st ->
   let st' := step K st op in
-  forallb (fun c => (8 <=? fst (fst c)) || snd c)
+  forallb (fun c => is_finding (fst (fst c)) || snd c)
           (clause_op K st st' (obs_of K st) op (obs_of K st') i) = true.
 Proof.
   intros HK HI HT st'.
   pose proof (covered_clauses_true K st op i HK HI) as Hc. fold st' in Hc.
   pose proof (cl1_true K st op HK HT) as H1. pose proof (cl2_true K st op HK HT) as H2.
-  pose proof (cl3_true K st op HK HT) as H3. fold st' in H1, H2, H3.
+  pose proof (cl3_true K st op HK HT) as H3. pose proof (cl11_true K st op HK HT) as H11.
+  fold st' in H1, H2, H3, H11.
   unfold clause_op in *. rewrite obs_length in * by exact HK.
   replace (3 + 6 * K <? 3 + 6 * K) with false in * by (symmetry; apply Z.ltb_irrefl).
   cbn [forallb fst snd covered] in *. cbn [Z.eqb orb negb] in Hc.
-  change (8 <=? 1) with false. change (8 <=? 2) with false. change (8 <=? 3) with false.
-  change (8 <=? 4) with false. change (8 <=? 5) with false. change (8 <=? 6) with false.
-  change (8 <=? 7) with false. change (8 <=? 8) with true. change (8 <=? 9) with true.
-  change (8 <=? 10) with true. cbn [orb].
-  rewrite H1, H2, H3. cbn [andb].
+  change (is_finding 1) with false. change (is_finding 2) with false. change (is_finding 3) with false.
+  change (is_finding 4) with false. change (is_finding 5) with false. change (is_finding 6) with false.
+  change (is_finding 7) with false. change (is_finding 8) with true. change (is_finding 9) with true.
+  change (is_finding 10) with true. change (is_finding 11) with false. cbn [orb].
+  rewrite H1, H2, H3, H11. cbn [andb].
   repeat (apply andb_true_iff in Hc; destruct Hc as [? Hc]).
   repeat (apply andb_true_iff; split); assumption || reflexivity.
 Qed.
 
 Lemma all_from_true K : 0 <= K -> forall ops st i, Inv st -> TInv st ->
-  forallb (fun c => (8 <=? fst (fst c)) || snd c)
+  forallb (fun c => is_finding (fst (fst c)) || snd c)
           (clauses_from K st (obs_of K st) i ops (run_from K st ops)) = true.
 Proof.
   intros HK. induction ops as [|op r IH]; intros st i HI HT; cbn; [reflexivity|].
@@ -1070,10 +1259,7 @@ Proof.
   assert (G : forall (f g : Z * Z * bool -> bool) l, forallb f l = true -> forallb f (filter g l) = true).
   { intros f g l. induction l as [|a l IH]; cbn; [auto|]. intros H. apply andb_true_iff in H.
     destruct H as [H1 H2]. destruct (g a); cbn; [rewrite H1; cbn|]; auto. }
-  assert (HK : 0 <= K).
-  { unfold cfg_K in E. destruct c as [|k [|]]; try discriminate.
-    destruct ((1 <=? k) && (k <=? 64)) eqn:E2; [|discriminate]. injection E as <-.
-    apply andb_true_iff in E2. destruct E2 as [E2 _]. apply Z.leb_le in E2. lia. }
+  assert (HK : 0 <= K) by (eapply cfg_K_range; eauto).
   rewrite forallb_app. rewrite !G; [reflexivity | |];
     apply all_from_true; auto using Inv_init, TInv_init.
 Qed.
@@ -1156,4 +1342,22 @@ Lemma hist_uneject_time K ops op c sm id e t0 :
 Proof.
   intros st st' Hf Hfind Hej. destruct (fired_pre K st op c sm (reach_tinv K ops) Hf) as [Es [Hlt _]].
   unfold st'. rewrite Es, fire_now. apply fire_uneject; assumption.
+Qed.
+
+Lemma room_spec n mx : forall f k i, 0 <= i < room f k n mx -> share_ge (k + i) n mx = false.
+Proof.
+  induction f as [|f IH]; intros k i H; cbn [room] in H; [lia|].
+  destruct (share_ge k n mx) eqn:E; [lia|].
+  destruct (Z.eq_dec i 0) as [-> | Hi]; [rewrite Z.add_0_r; exact E|].
+  replace (k + i) with (k + 1 + (i - 1)) by lia. apply IH. lia.
+Qed.
+
+Lemma hist_ejections_within_cap K ops op c sm :
+  let st := final K init ops in let st' := step K st op in
+  fired K st op = Some (c, sm) ->
+  count_at (now st') (eps st') <=
+  room (2 * length (eps sm)) (numej sm) (len (eps sm)) (maxpct c).
+Proof.
+  intros st st' Hf. destruct (fired_pre K st op c sm (reach_tinv K ops) Hf) as [Es [Hlt _]].
+  unfold st'. rewrite Es, fire_now. apply fire_count. exact Hlt.
 Qed.
